@@ -10,6 +10,8 @@ import jax
 import jax.numpy as jnp
 import numpy as np
 
+from vlib.core import fstr
+
 import liesel.model as lsl
 
 SHAPES = [(), (3,), (2, 2)]
@@ -324,9 +326,54 @@ def tfp_shape_trace():
         except Exception as ex:  # noqa: BLE001  (real distributions: an exception here is the library's)
             ev.append({"ev": "tfp_simulate", "auto": auto, "first_shapes": [], "second_shapes": [], "same_as_fresh": False,
                        "crash": f"{type(ex).__name__}: {ex}"[:200]})
+    ev += support_events()
     hdr = {"n": 1, "kind": ["v"], "inp": [[]], "init": [0], "sims": [], "factors": [], "plan": [{"kind": "v", "inp": []}],
            "value_shapes": [[]], "ops": []}
     return {"hdr": hdr, "ev": ev}
+
+
+def support_events():
+    """simulate() on a distributional-regression model with a P-spline prior (degenerate multivariate normal with a
+    rank-deficient, non-diagonal penalty; inverse-gamma smoothing variance): every draw lies in the support of its
+    distribution - the coefficient draw has no component in the null space of the penalty, the variance is positive."""
+    import tensorflow_probability.substrates.jax.bijectors as tfb
+    import tensorflow_probability.substrates.jax.distributions as tfd
+    ev = []
+    d = 6
+    D = np.diff(np.eye(d), 2, axis=0)
+    K = (D.T @ D).astype(np.float32)
+    w, V = np.linalg.eigh(K.astype(np.float64))
+    null = V[:, w < 1e-8]                       # (d, 2): constants and linear trends
+    xs = np.linspace(-1, 1, 9)
+    for auto in (True, False):
+        rec = {"ev": "support_simulate", "auto": auto, "crash": "", "null_rel": "NaN", "tau2": "NaN", "response_finite": False,
+               "null_dim": int(null.shape[1])}
+        try:
+            bld = lsl.DistRegBuilder()
+            bld.add_response(jnp.zeros(9, jnp.float32), tfd.Normal)
+            bld.add_predictor("loc", tfb.Identity)
+            bld.add_predictor("scale", tfb.Exp)
+            bld.add_np_smooth(jnp.asarray(np.vander(xs, d), jnp.float32), jnp.asarray(K), a=2.0, b=0.5, predictor="loc")
+            bld.add_p_smooth(jnp.ones((9, 1), jnp.float32), m=0.0, s=0.3, predictor="scale")
+            m = bld.build_model()
+            # the smoothing variance is kept fixed at a value for which the eigenvalues of the precision matrix are well
+            # separated from the distribution's absolute tolerance (G9, DESIGN 14.7: for small variances float32 noise in
+            # the null eigenvalues exceeds that tolerance and the shipped sampler itself leaves the support)
+            m.vars["loc_np0_tau2"].value = jnp.float32(25.0)
+            m.auto_update = auto
+            worst = 0.0
+            for seed in (3, 4, 5):
+                m.simulate(jax.random.PRNGKey(seed), skip=["loc_np0_tau2"])
+                m.update()
+                beta = np.asarray(m.vars["loc_np0_beta"].value, np.float64)
+                worst = max(worst, float(np.linalg.norm(null.T @ beta) / max(np.linalg.norm(beta), 1e-30)))
+                rec["tau2"] = fstr(float(m.vars["loc_np0_tau2"].value))
+                rec["response_finite"] = bool(np.all(np.isfinite(np.asarray(m.vars["response"].value))))
+            rec["null_rel"] = fstr(worst)
+        except Exception as ex:  # noqa: BLE001
+            rec["crash"] = f"{type(ex).__name__}: {ex}"[:200]
+        ev.append(rec)
+    return ev
 
 
 def _tfp_block(make, auto):
